@@ -112,6 +112,8 @@ func checkC03(P *core.Program, R *core.Report) {
 	}
 	R.Analysed["c03_range_assumptions_used"] = len(us)
 	checkSolvePairing(P, R)
+	checkSnapshotRole(P, R, "C03-snapshot-role")
+	checkSeriesConverged(P, R)
 }
 
 func fOf(av core.AV) string {
@@ -257,5 +259,76 @@ func checkIdealDirection(P *core.Program, R *core.Report, rule, table, key strin
 	}
 	if n == 0 {
 		R.Add(rule, key, what, P.Pos(fn.Pos()), false, "no success return found (anchor changed)")
+	}
+}
+
+// checkSeriesConverged (C03-series-converged): Pow's fractional path (exp ∘ ln) is a pair
+// of truncated series; the documented 1e-8 precision holds only if a series result is
+// returned after its last term fell below powPrecision.  Decided as a must-hold fact: every
+// success return reachable from the comparison with powPrecision carries that comparison
+// (|term| ≤ / < powPrecision) — the only way out of the loop with a result is the
+// convergence break; running out of iterations must be an error, not a silent result
+// (which under-charges an exact-out swap by orders of magnitude more than the allowance).
+func checkSeriesConverged(P *core.Program, R *core.Report) {
+	const rule = "C03-series-converged"
+	for _, key := range []string{"x/amm/types.computeExp", "x/amm/types.computeLn"} {
+		fn := P.Fn(key)
+		if fn == nil {
+			R.Add(rule, key, "function", "-", false, "unresolved anchor")
+			continue
+		}
+		ff := P.Facts(fn)
+		isPrec := func(v ssa.Value) bool {
+			if v == nil || v == core.ZeroMarker || v == core.NilMarker {
+				return false
+			}
+			for _, o := range ff.Origins(v) {
+				if o.Kind == "global" && strings.HasSuffix(o.Name, "powPrecision") {
+					return true
+				}
+			}
+			return false
+		}
+		var cmps []ssa.Instruction
+		for _, c := range core.Calls(fn) {
+			switch core.CalleeName(c.Common()) {
+			case "LT", "LTE", "GT", "GTE":
+				a := c.Common().Args
+				if len(a) == 2 && (isPrec(a[0]) || isPrec(a[1])) {
+					cmps = append(cmps, c.(ssa.Instruction))
+				}
+			}
+		}
+		if len(cmps) == 0 {
+			R.Add(rule, key, "comparison with powPrecision", P.Pos(fn.Pos()), false, "the series loop no longer compares its term with powPrecision (anchor changed)")
+			continue
+		}
+		n := 0
+		for _, ex := range ff.Exits() {
+			if ex.Kind == core.ExitError {
+				continue
+			}
+			reach := false
+			for _, c := range cmps {
+				if reachesInstr(fn, c, ex.Instr) {
+					reach = true
+				}
+			}
+			if !reach {
+				continue
+			}
+			n++
+			conv := false
+			for _, a := range ff.At(ex.Instr) {
+				if (a.Rel == core.LT || a.Rel == core.LE) && isPrec(a.B) && a.A != nil && !isPrec(a.A) {
+					conv = true
+				}
+			}
+			R.Add(rule, key, "series result returned only after convergence", P.Pos(P.InstrPos(ex.Instr)), conv,
+				"a success return after the series loop must carry |term| ≤ powPrecision; leaving the loop any other way must be an error")
+		}
+		if n == 0 {
+			R.Add(rule, key, "series result", P.Pos(fn.Pos()), false, "no success return after the series loop (anchor changed)")
+		}
 	}
 }
